@@ -91,31 +91,43 @@ theorem isAlpha_isWord (c : Char) (h : isAlpha c = true) : isWord c = true := by
   · exact Or.inl (Or.inl (Or.inl h))
   · exact Or.inl (Or.inl (Or.inr h))
 
-/-- the request-line recogniser on a rendered line -/
-theorem matchReqLine_render (v : Verb) (vt content tail : List Char)
+theorem takeWhile_line (l r : List Char) (h : ∀ c ∈ l, c ≠ '\n') :
+    (l ++ '\n' :: r).takeWhile (· != '\n') = l := by
+  rw [List.takeWhile_append_of_pos (fun c hc => by simpa using h c hc)]
+  simp [List.takeWhile_cons]
+
+/-- the request pattern at the start of a rendered directive line (any further text after the line) -/
+theorem matchReqAt_render (v : Verb) (vt content tail rest : List Char)
     (hsp : vt.map lowerC = v.lowerChars) (hal : ∀ c ∈ vt, isAlpha c = true)
-    (ht : ∀ c ∈ tail, isWord c = false ∧ c ≠ ')') :
-    matchReqLine (shootColon ++ [' '] ++ vt ++ ['('] ++ content ++ [')'] ++ tail) = some (v, content) := by
+    (ht : ∀ c ∈ tail, isWord c = false ∧ c ≠ ')') (hnl : ∀ c ∈ content ++ [')'] ++ tail, c ≠ '\n') :
+    matchReqAt (shootColon ++ [' '] ++ vt ++ ['('] ++ content ++ [')'] ++ tail ++ '\n' :: rest) = some (v, content) := by
   have hne : vt ≠ [] := by
     intro e; subst e
     cases v <;> simp [Verb.lowerChars] at hsp
   obtain ⟨a, as, rfl⟩ := List.exists_cons_of_ne_nil hne
   have ha : isWord a = true := isAlpha_isWord a (hal a (by simp))
-  have e0 : shootColon ++ [' '] ++ (a :: as) ++ ['('] ++ content ++ [')'] ++ tail
-      = shootColon ++ (' ' :: ((a :: as) ++ '(' :: (content ++ [')'] ++ tail))) := by simp
+  have e0 : shootColon ++ [' '] ++ (a :: as) ++ ['('] ++ content ++ [')'] ++ tail ++ '\n' :: rest
+      = shootColon ++ (' ' :: ((a :: as) ++ '(' :: ((content ++ [')'] ++ tail) ++ '\n' :: rest))) := by simp
   rw [e0]
-  have e1 : stripPrefixCI shootColon (shootColon ++ (' ' :: ((a :: as) ++ '(' :: (content ++ [')'] ++ tail))))
-      = some (' ' :: ((a :: as) ++ '(' :: (content ++ [')'] ++ tail))) :=
+  have e1 : stripPrefixCI shootColon (shootColon ++ (' ' :: ((a :: as) ++ '(' :: ((content ++ [')'] ++ tail) ++ '\n' :: rest))))
+      = some (' ' :: ((a :: as) ++ '(' :: ((content ++ [')'] ++ tail) ++ '\n' :: rest))) :=
     stripPrefixCI_append shootColon shootColon _ (by decide)
-  simp only [matchReqLine, e1]
+  simp only [matchReqAt, e1]
   have hsp' : isWord ' ' = false := by decide
-  have e2 : (' ' :: ((a :: as) ++ '(' :: (content ++ [')'] ++ tail))).takeWhile (fun c => !isWord c) = [' '] := by
+  have e2 : (' ' :: ((a :: as) ++ '(' :: ((content ++ [')'] ++ tail) ++ '\n' :: rest))).takeWhile (fun c => !isWord c) = [' '] := by
     simp [List.takeWhile_cons, hsp', ha]
-  have e3 : (' ' :: ((a :: as) ++ '(' :: (content ++ [')'] ++ tail))).dropWhile (fun c => !isWord c)
-      = (a :: as) ++ '(' :: (content ++ [')'] ++ tail) := by
+  have e3 : (' ' :: ((a :: as) ++ '(' :: ((content ++ [')'] ++ tail) ++ '\n' :: rest))).dropWhile (fun c => !isWord c)
+      = (a :: as) ++ '(' :: ((content ++ [')'] ++ tail) ++ '\n' :: rest) := by
     simp [List.dropWhile_cons, hsp', ha]
   rw [e2, e3, matchVerb_render v (a :: as) _ hsp hal]
-  simp only [List.isEmpty_cons, Bool.false_eq_true, ↓reduceIte, lastParen_render content tail ht, Option.map_some]
+  simp only [List.isEmpty_cons, Bool.false_eq_true, ↓reduceIte, takeWhile_line _ rest hnl,
+    lastParen_render content tail ht, Option.map_some]
+
+theorem firstAtLineStart_here {α : Type} (f : List Char → Option α) (doc : List Char) (x : α)
+    (h : f doc = some x) : firstAtLineStart f true doc = some x := by
+  cases doc with
+  | nil => simp [firstAtLineStart, h]
+  | cons c cs => simp [firstAtLineStart, h]
 
 /-! ### the path checks -/
 
